@@ -4,6 +4,7 @@ import Enc.Lemmas.ThriftSpec
 import Enc.Lemmas.ThriftAccept
 import Enc.Lemmas.ThriftDeltaStop
 import Enc.Lemmas.ThriftMessage
+import Enc.Lemmas.ThriftUnionSpec
 /-!
 # C13 — thrift bytes follow the binary and compact protocol specifications
 Property theorems only. `Spec.Thrift` is the reference (written from the Apache specifications).
@@ -179,5 +180,44 @@ theorem binary_message_cut_before_seq (s : Bool) (mt : Nat) (name : Bytes) (hn :
 
 /-- non-vacuity: seq = -1 is written as the 5-byte varint ff ff ff ff 0f -/
 example : wMessage .compact 0 [] (-1) = [0x82, 0, 0xff, 0xff, 0xff, 0xff, 0x0f, 0] := by decide +kernel
+
+/-! ## unions (proofs in Enc/Lemmas/ThriftUnionSpec.lean; executable reference with unions: `Spec.Thrift.encodeU`)
+
+Apache Thrift: a union is, on the wire, an ordinary struct carrying exactly one field — the member that is set, whatever
+its value. -/
+
+open Lemmas.ThriftSkip Lemmas.ThriftUnion in
+/-- **union bytes = specification (compact protocol).** The bytes written for a union value with exactly member `k` emitted
+(`othersQuiet`, `emittedU`: see Props/C04 — the designated ZERO-valued member included) are byte for byte the specification's
+encoding (`Spec.Thrift.encode`) of the struct that has exactly that field: `tag'` = the member's id and enum flag plus
+`required`, so that the reference transmits the field whatever its value. Member universe: `Lemmas.ThriftSpec.ok`. -/
+theorem union_bytes_eq_spec (fs : Fields) (vs : Vals) (k : Nat) (tag : String) (t : Ty) (x : Val) (id : Int) (en : Bool)
+    (n tag' : String) (e : Bool)
+    (hq : othersQuiet (zeroMember fs vs) k fs vs 0 = true)
+    (hk : fieldAt fs vs k = some (tag, t, x))
+    (he : emittedU (zeroMember fs vs) k tag t x = some (id, en))
+    (hnu : noUnion t = true)
+    (hp' : parseTag tag' = some (id, true, en)) (hnn : isNilPtr t x = false)
+    (hok : Lemmas.ThriftSpec.ok (.struct (.cons n tag' e t .nil)) (.struct (.cons x .nil)) = true) :
+    encodeU .compact (.struct fs) (.struct vs) =
+      .ok (Spec.Thrift.encode .compact (.struct (.cons n tag' e t .nil)) (.struct (.cons x .nil))) :=
+  Lemmas.ThriftUnion.union_bytes_eq_spec fs vs k tag t x id en n tag' e hq hk he hnu hp' hnn hok
+
+open Lemmas.ThriftSkip Lemmas.ThriftUnion in
+/-- every protocol setting, at the level of the model: union bytes = the bytes of the one-field struct (binary: then
+`encode_binary_eq_spec_mod` applies to the right-hand side) -/
+theorem union_bytes_eq_single (p : Proto) (fs : Fields) (vs : Vals) (k : Nat) (tag : String) (t : Ty) (x : Val) (id : Int)
+    (en : Bool) (n tag' : String) (e : Bool)
+    (hq : othersQuiet (zeroMember fs vs) k fs vs 0 = true)
+    (hk : fieldAt fs vs k = some (tag, t, x))
+    (he : emittedU (zeroMember fs vs) k tag t x = some (id, en))
+    (hnu : noUnion t = true)
+    (hp' : parseTag tag' = some (id, true, en)) (hnn : isNilPtr t x = false) :
+    encodeU p (.struct fs) (.struct vs) = .ok (encode p (.struct (.cons n tag' e t .nil)) (.struct (.cons x .nil))) :=
+  Lemmas.ThriftUnion.union_bytes_eq_single p fs vs k tag t x id en n tag' e hq hk he hnu hp' hnn
+
+/-- conservativity: on union-free types `encodeU` is `encode`, so `encode_compact_eq_spec` speaks about the model the driver runs -/
+theorem encodeU_eq_encode (p : Proto) (ty : Ty) (v : Val) (h : noUnion ty = true) :
+    encodeU p ty v = .ok (Model.Thrift.encode p ty v) := Lemmas.ThriftUnion.encodeU_eq_encode p ty v h
 
 end Enc.Props.C13
